@@ -188,8 +188,16 @@ def rule_r4(ctx) -> RuleResult:
             et = unparse(e)
             label = "{}({})".format(node.func.id, et)
             ctx.touched(dotted, P.PARSER)
-            if caught_by("ValueError", handlers) or ("isdecimal", et) in facts:
+            if caught_by("ValueError", handlers):
                 rr.ok(dotted, label, {"fn": dotted, "site": label})
+            elif ("isdecimal", et) in facts:
+                from ..core.guards import bounded_digits
+                if node.func.id == "float" or bounded_digits(facts, et):
+                    rr.ok(dotted, label, {"fn": dotted, "site": label})
+                else:
+                    rr.bad(Finding("C01.R4", P.PARSER, dotted, label + " after isdecimal() without a length bound",
+                                   "isdecimal() does not imply that int() succeeds: a decimal string of more than 4300 digits makes int() raise "
+                                   "ValueError (sys.int_max_str_digits), and parse() raises with it", node.lineno))
             elif ("isdigit", et) in facts:
                 rr.bad(Finding("C01.R4", P.PARSER, dotted, label,
                                "guarded only by isdigit(): parse('{{PAGENAME|²=x}}') raises ValueError", node.lineno))
